@@ -11,6 +11,8 @@ from ..harness import Sub, Violation, Inconclusive, run_world, crash_is_violatio
 from ..oracles import bspl, fem
 
 PROPERTY = "C14"
+HANG_SECONDS = 400.0
+LINE_BUDGET = 1000000000
 RULE = ("Hypothesis-generated DiffEqSolver configurations: radial spline degree 1-5, 2-12 uniform cells on [rmin,rmax] "
         "(rmin>0), uniform-cubic or general space, quadrature exactness parameter generated, constant A in {-1,-1/2,-2}, "
         "coefficient functions B,C,D,E from the families used by the code (polynomials of degree <= 2, 1/r, 1/r^2, "
